@@ -932,4 +932,8 @@ func TestVerifC33(t *testing.T) {
 
 	// the length-prefixed framing every one of these messages arrives in (zz_verif_c33_framing_test.go)
 	framingGroups(r)
+
+	// the combined notifications decoder that picks handshake / message decoder per peer state
+	// (zz_verif_c33_createdec_test.go)
+	createDecoderGroups(r)
 }
